@@ -1,5 +1,5 @@
 import DcmVerif.Proofs.Code_subset
-/-! The tie by proof (dcmmeta.py: per-key dictionary edits of subsets (_copy_slice, _copy_sample)): functions translated from the Python source on every run
+/-! The tie by proof (dcmmeta.py: get_subset for one key of the parent (class dispatch, _copy_slice, _copy_sample)): functions translated from the Python source on every run
 (`tools/gen_code.py` → `Generated/Code_subset.lean`) are the model functions the property theorems speak about.
 Statements only; proofs are by reference to `Proofs/Code_subset.lean`. One file per function group, so that an edit
 of one function only unsettles the properties that depend on it. -/
@@ -40,7 +40,43 @@ theorem copy_sample_is_model (null : α) (e r : DExt κ α) (isTime : Bool)
       errOf ((sampleSubsetK null e.shp r.shp isTime idx c vals).map toDict) :=
   Src.copy_sample_eq null e r isTime he4 he5 hev hesl h3 h5 hsl hbase c hcne vals idx hidx hdest
 
-/-- the translator translated every function of this group (dcmmeta.py: per-key dictionary edits of subsets (_copy_slice, _copy_sample)) -/
+/-- **a subset along the slice axis, as written in dcmmeta.py, is the model's `subsetSliceK`** for one key: non-slice classes are
+    copied, per-slice classes go through `_copy_slice` -/
+theorem get_subset_slice_axis_is_model (null : α) (e r : DExt κ α) (dim : Nat) (hed : e.sliceDim = some dim)
+    (h3 : 3 ≤ r.shape.length) (h5 : r.shape.length ≤ 5)
+    (hsl : r.sliceDim.isSome = true) (hbase : ∀ d, basePresent r.shp d = true → d ∈ validClasses r.shp)
+    (hrs : r.shp = sliceSubsetShp e.shp)
+    (c : Cls) (vals : List α) (idx : Nat)
+    (hne : perSlice c = true → (stride e.shp.S (vals.drop idx)).length ≠ 0 ∨ mult r.shp (copySliceDest (validClasses r.shp) c) = 0) :
+    Py.get_subset_key null e.shape (e.sliceDim.map fun d => e.shape.getD d 1) e.sliceDim r.shape
+        (r.sliceDim.map fun d => r.shape.getD d 1) (contentOf r) [] c vals dim idx =
+      errOf ((subsetSliceK null e.shp (some (c, vals)) idx).map toDict) :=
+  Src.get_subset_key_slice_eq null e r dim hed h3 h5 hsl hbase hrs c vals idx hne
+
+/-- **a subset along a spatial axis other than the slice axis copies every key** -/
+theorem get_subset_spatial_axis_copies (null : α) (e r : DExt κ α) (dim : Nat) (hed : e.sliceDim ≠ some dim) (hd3 : dim < 3)
+    (c : Cls) (vals : List α) (idx : Nat) :
+    Py.get_subset_key null e.shape (e.sliceDim.map fun d => e.shape.getD d 1) e.sliceDim r.shape
+        (r.sliceDim.map fun d => r.shape.getD d 1) (contentOf r) [] c vals dim idx = .ok [(c, vals)] :=
+  Src.get_subset_key_spatial_eq null e r dim hed hd3 c vals idx
+
+/-- **a subset along the time (`dim = 3`) or vector (`dim = 4`) axis, as written in dcmmeta.py, is the model's `subsetTimeK` /
+    `subsetVecK`** for one key: constants are copied, everything else goes through `_copy_sample` -/
+theorem get_subset_sample_axis_is_model (null : α) (e r : DExt κ α) (isTime : Bool) (dim : Nat)
+    (hdim : dim = if isTime then 3 else 4) (hed : e.sliceDim ≠ some dim)
+    (he4 : 4 ≤ e.shape.length) (he5 : e.shape.length ≤ 5) (hev : isTime = false → e.shape.length = 5)
+    (hesl : e.sliceDim.isSome = true)
+    (h3 : 3 ≤ r.shape.length) (h5 : r.shape.length ≤ 5)
+    (hsl : r.sliceDim.isSome = true) (hbase : ∀ d, basePresent r.shp d = true → d ∈ validClasses r.shp)
+    (hrs : r.shp = if isTime then timeSubsetShp e.shp else vecSubsetShp e.shp)
+    (c : Cls) (vals : List α) (idx : Nat) (hidx : idx < vals.length)
+    (hdest : c ≠ gconst → (copySampleK e.shp r.shp isTime idx c vals).1 ∈ validClasses r.shp) :
+    Py.get_subset_key null e.shape (e.sliceDim.map fun d => e.shape.getD d 1) e.sliceDim r.shape
+        (r.sliceDim.map fun d => r.shape.getD d 1) (contentOf r) [] c vals dim idx =
+      errOf (((if isTime then subsetTimeK null e.shp (some (c, vals)) idx else subsetVecK null e.shp (some (c, vals)) idx)).map toDict) :=
+  Src.get_subset_key_sample_eq null e r isTime dim hdim hed he4 he5 hev hesl h3 h5 hsl hbase hrs c vals idx hidx hdest
+
+/-- the translator translated every function of this group (dcmmeta.py: get_subset for one key of the parent (class dispatch, _copy_slice, _copy_sample)) -/
 theorem translator_complete_subset : Gen.codeMissing_subset = [] := rfl
 
 end Source
